@@ -174,6 +174,18 @@ def build_coq(ctx):
     if extra or closed + (1 if axioms else 0) < 1 or (not axioms and closed != len(thms)):
         ctx.broken.append(dict(kind="assumptions", what="Print Assumptions output not as expected", detail=out[-2000:]))
         return False
+    if ctx.tier == "thorough":
+        # independent re-check of the compiled property file and everything it depends on, with the axiom summary
+        lib = "GVP." + os.path.basename(target)[:-2]
+        with Lock("coq.lock"):
+            rc, out = sh(["coqchk", "-silent", "-o", "-Q", "theories", "GV", "-Q", "props", "GVP", lib], cwd=COQ, timeout=3000)
+        summary = out[out.find("CONTEXT SUMMARY"):] if "CONTEXT SUMMARY" in out else out[-1500:]
+        ok = rc == 0 and all(("* %s: <none>" % k) in summary for k in
+                             ("Axioms", "Constants/Inductives relying on type-in-type", "Constants/Inductives relying on unsafe (co)fixpoints", "Inductives whose positivity is assumed"))
+        ctx.cov["coqchk"] = "coqchk -o %s: %s" % (lib, "no axioms, no type-in-type, no unsafe fixpoints, no assumed positivity" if ok else "NOT CLEAN")
+        if not ok:
+            ctx.broken.append(dict(kind="assumptions", what="coqchk does not accept the compiled development", detail=summary[-2000:]))
+            return False
     return True
 
 
